@@ -75,4 +75,16 @@ CHECKS = {
         thorough=[R("^(TestAlgebraExhaustive|TestFoldFixed|TestCanary.*)$", 1, 1, 120), R("^TestFold$", 12000, 12, 2400), R("^TestFold$", 1500, 2, 2400, race=True)],
         floors={"concurrent": ("TestFold", 0.15), "mixed-criticality": ("TestFold", 0.4)},
     ),
+    "C16": dict(
+        pkg="./props/c16", level="fault_enumeration",
+        rule=("exhaustive depth-first enumeration, through the real executorcmd.RpcClient over loopback gRPC against an in-process OCC server "
+              "that follows occ/plugin/OccFMQCommon.cxx::doTransition, of: control mode (FairMQ, direct) x event (CONFIGURE, START, STOP, RESET, EXIT) "
+              "x claimed source state (4) x real device state (9 FairMQ / 5 direct, i.e. including wrong sources) x every assignment of an outcome "
+              "(done, refused in place by reply, refused by gRPC error, device goes to ERROR, transport error before applying, transport error after "
+              "applying) to every device step the transitioner actually issues. Non-trivial: a path with >=1 non-done step (counted, all distinct by construction)."),
+        assumptions=["the simulated device follows the OCC plugin's doTransition (source-state check, expected final state per event, ok/trigger rules) and the FairMQ state table",
+                     "'unknown' (empty) is an admissible report only when the device is in an intermediate state, after an injected gRPC-level failure of the last request, or when the caller's claimed source was wrong"],
+        quick=[R("^TestCommitExhaustive$", 1, 1, 300)],
+        thorough=[R("^TestCommitExhaustive$", 1, 1, 300)],
+    ),
 }
